@@ -402,7 +402,8 @@ MsgVectors(T, name) ==
 
 \* ------------------------------------------------------------------ compatibility of descriptors
 (***************************************************************************)
-(* Flat view of the fields of an entry list; comparison of an observed     *)
+(* Flat view of the fields of an entry list (here a field also carries its *)
+(* name and the name of its oneof); comparison of an observed              *)
 (* descriptor with the baseline (identity) and with an independent         *)
 (* reference (every reference field present with the same tag, kind,       *)
 (* cardinality, type; further fields need fresh tags, which uniqueness of  *)
@@ -411,6 +412,7 @@ MsgVectors(T, name) ==
 (***************************************************************************)
 FlatFields(es) == UNION {{[tag |-> es[i].fs[j].tag, kind |-> es[i].fs[j].kind, card |-> es[i].fs[j].card,
                            lty |-> es[i].fs[j].lty, kk |-> es[i].fs[j].kk, packed |-> es[i].fs[j].packed,
+                           name |-> es[i].fs[j].name, gname |-> es[i].fs[j].gname,
                            grp |-> IF es[i].oneof THEN EKey(es[i]) ELSE 0] : j \in DOMAIN es[i].fs} : i \in DOMAIN es}
 TagsUnique(es) == \A a, b \in FlatFields(es) : a.tag = b.tag => a = b
 \* differences against the baseline: any field added, removed or altered
